@@ -826,6 +826,7 @@ func (c *HostClient) acquireConn(dialTimeout time.Duration) (cc *clientConn, inP
 		c.conns = c.conns[:n]
 	}
 	c.connsLock.Unlock()
+	verifYield("acquire.unlocked")
 
 	if cc != nil {
 		return cc, true, nil
@@ -891,6 +892,7 @@ func (c *HostClient) queueForIdle(w *wantConn) {
 
 func (c *HostClient) dialConnFor(w *wantConn) {
 	conn, err := c.dialHostHard(c.DialTimeout)
+	verifYield("dialfor.dialed")
 	if err != nil {
 		w.tryDeliver(nil, err)
 		c.decConnsCount()
@@ -988,11 +990,13 @@ func (c *HostClient) connsCleaner() {
 
 func (c *HostClient) closeConn(cc *clientConn) {
 	c.decConnsCount()
+	verifYield("close.uncounted")
 	cc.c.Close()
 	releaseClientConn(cc)
 }
 
 func (c *HostClient) decConnsCount() {
+	verifYield("dec.enter")
 	if c.MaxConnWaitTimeout <= 0 {
 		c.connsLock.Lock()
 		c.connsCount--
@@ -1039,6 +1043,7 @@ var clientConnPool sync.Pool
 
 func (c *HostClient) releaseConn(cc *clientConn) {
 	cc.lastUseTime = time.Now()
+	verifYield("release.enter")
 	if c.MaxConnWaitTimeout <= 0 {
 		c.connsLock.Lock()
 		c.conns = append(c.conns, cc)
@@ -1255,6 +1260,7 @@ func (w *wantConn) tryDeliver(conn *clientConn, err error) bool {
 // cancel marks w as no longer wanting a result (for example, due to cancellation).
 // If a connection has been delivered already, cancel returns it with c.releaseConn.
 func (w *wantConn) cancel(c *HostClient, err error) {
+	verifYield("cancel.enter")
 	w.mu.Lock()
 	if w.conn == nil && w.err == nil {
 		close(w.ready) // catch misbehavior in future delivery
